@@ -284,7 +284,12 @@ func cavsHaveNil(cs []macaroon.Caveat) bool {
 }
 
 // comparable: every token involved is inside the modelled domain
-func comparable(tok []byte, ds [][]byte) bool {
+func comparable(tok []byte, ds [][]byte) (ok bool) {
+	defer func() {
+		if recover() != nil {
+			ok = true // a panicking Decode is an observable in its own right: let the caller record it
+		}
+	}()
 	if m, err := macaroon.Decode(tok); err == nil && unmodelledNil(m) {
 		return false
 	}
